@@ -1336,6 +1336,36 @@ func clientReplyOracle(sc *scenario, c *websocket.Conn, resp *http.Response, err
 		if t.closed > 0 {
 			sc.violate("successful Dial closed the network connection")
 		}
+		// C15: compression is in use only when the 101 announced permessage-deflate with both
+		// no-context-takeover parameters (judged on the reply text, list grammar without quoted strings)
+		if c != nil {
+			cw, cr := websocket.VerifNegotiated(c)
+			both, quoted := false, false
+			for _, l := range pr.Header["Sec-Websocket-Extensions"] {
+				if strings.Contains(l, "\"") {
+					quoted = true
+				}
+				for _, e := range strings.Split(l, ",") {
+					parts := strings.Split(e, ";")
+					if owsTrim(parts[0]) != "permessage-deflate" {
+						continue
+					}
+					names := map[string]bool{}
+					for _, p := range parts[1:] {
+						names[owsTrim(strings.SplitN(p, "=", 2)[0])] = true
+					}
+					if names["server_no_context_takeover"] && names["client_no_context_takeover"] {
+						both = true
+					}
+				}
+			}
+			if cw != cr {
+				sc.violate("client compresses=%v but accepts compressed=%v", cw, cr)
+			}
+			if (cw || cr) && !both && !quoted {
+				sc.violate("compression in use although the 101 did not announce permessage-deflate with both no_context_takeover parameters: %q", pr.Header["Sec-Websocket-Extensions"])
+			}
+		}
 		return
 	}
 	if c != nil {
